@@ -13,6 +13,10 @@ uses are required as type-class arguments).  The driver executes them at `Rat` (
 `Float` (RDP, log-cosh, PLS, default weights: `sqrt/log/cosh/tanh`); `Proofs*.lean` instantiates the same
 text at an ordered field / at `ℝ`.
 
+The model describes the code AFTER the repairs build/fixes/C09-1..3 (line numbers refer to the repaired files):
+PLS gradient with per-direction border handling and kappa inside the divergence; Hessian functions of the three neighbourhood
+priors skip the centre offset.  Asymmetric user weights are modelled as the code treats them (known finding).
+
 What is *not* modelled: float rounding (`static_cast<elemT>`, float accumulators; handled by the derived
 tolerance of `checks/c09.py`), parsing (`post_processing`), the `check()`/`set_up()` guards, file output of
 the gradient, non-regular (ragged) arrays (`VoxelsOnCartesianGrid` is always regular; the weights are
@@ -91,10 +95,11 @@ def gradCore (d10 : K → K → K) (pf : K) (w : Img K) (κ : Option (Img K)) (b
 def grad (d10 : K → K → K) (pf : K) (w : Img K) (κ : Option (Img K)) (b wb : Box) (img : Img K) (z y x : Int) : K :=
   if pf == 0 then 0 else gradCore d10 pf w κ b wb img z y x
 
-/-- `compute_Hessian` (QuadraticPrior.cxx:386-454, RelativeDifferencePrior.cxx:454-522): the entry at voxel
+/-- `compute_Hessian` (QuadraticPrior.cxx:384-457, RelativeDifferencePrior.cxx:452-525, LogcoshPrior.cxx:394-467): the entry at voxel
     `(z,y,x)` of the Hessian row of voxel `(cz,cy,cx)`.  The C++ first fills the output with 0 and then assigns, for
     every offset `d` of the clipped neighbourhood of `c`, the voxel `c+d`: the diagonal (`d = 0`) gets the sum over
-    the neighbourhood of `w(dd) * d20(image[c], image[c+dd]) * kappa…`, the others `w(d) * d11(image[c], image[c+d]) * kappa…`,
+    the neighbourhood **without the centre offset** (`if (ddz == 0 && ddy == 0 && ddx == 0) continue;`) of
+    `w(dd) * d20(image[c], image[c+dd]) * kappa…`, the others `w(d) * d11(image[c], image[c+d]) * kappa…`,
     each `* penalisation_factor`. -/
 def hessRowCore (d20 d11 : K → K → K) (pf : K) (w : Img K) (κ : Option (Img K)) (b wb : Box) (img : Img K)
     (cz cy cx : Int) (z y x : Int) : K :=
@@ -102,7 +107,9 @@ def hessRowCore (d20 d11 : K → K → K) (pf : K) (w : Img K) (κ : Option (Img
   if inNb b wb cz cy cx dz dy dx then
     (if dz == 0 && dy == 0 && dx == 0 then
       nbSum b wb cz cy cx fun ddz ddy ddx =>
-        w ddz ddy ddx * d20 (img cz cy cx) (img (cz + ddz) (cy + ddy) (cx + ddx)) * kfac κ cz cy cx (cz + ddz) (cy + ddy) (cx + ddx)
+        if ddz == 0 && ddy == 0 && ddx == 0 then 0
+        else
+          w ddz ddy ddx * d20 (img cz cy cx) (img (cz + ddz) (cy + ddy) (cx + ddx)) * kfac κ cz cy cx (cz + ddz) (cy + ddy) (cx + ddx)
      else
       w dz dy dx * d11 (img cz cy cx) (img (cz + dz) (cy + dy) (cx + dx)) * kfac κ cz cy cx (cz + dz) (cy + dy) (cx + dx)) * pf
   else 0
@@ -112,20 +119,19 @@ def hessRow (d20 d11 : K → K → K) (pf : K) (w : Img K) (κ : Option (Img K))
     (cz cy cx : Int) (z y x : Int) : K :=
   if pf == 0 then 0 else hessRowCore d20 d11 pf w κ b wb img cz cy cx z y x
 
-/-- `accumulate_Hessian_times_input` (QuadraticPrior.cxx:599-687, RelativeDifferencePrior.cxx:532-619), the amount added
-    to `output[z][y][x]`:
-    `current = w; if (current == 0) continue; if (d == 0) current *= d20(..)*input[r]; else current *= d20(..)*input[r] + d11(..)*input[r+d];
-     current *= kappa…; result += current;  output[z][y][x] += result * penalisation_factor` -/
+/-- `accumulate_Hessian_times_input` (QuadraticPrior.cxx:602-690, RelativeDifferencePrior.cxx:535-622, LogcoshPrior.cxx:536-615), the amount
+    added to `output[z][y][x]`:
+    `current = w; if (current == 0) continue; if (d == 0) continue; else current *= d20(..)*input[r] + d11(..)*input[r+d];
+     current *= kappa…; result += current;  output[z][y][x] += result * penalisation_factor`
+    (a voxel is not its own neighbour: the centre weight contributes nothing, as in value and gradient) -/
 def hessTimesCore (d20 d11 : K → K → K) (pf : K) (w : Img K) (κ : Option (Img K)) (b wb : Box) (cur inp : Img K) (z y x : Int) : K :=
   (nbSum b wb z y x fun dz dy dx =>
     let current := w dz dy dx
     if current == 0 then 0
+    else if dz == 0 && dy == 0 && dx == 0 then 0
     else
-      (if dz == 0 && dy == 0 && dx == 0 then
-        current * (d20 (cur z y x) (cur (z + dz) (y + dy) (x + dx)) * inp z y x)
-       else
-        current * (d20 (cur z y x) (cur (z + dz) (y + dy) (x + dx)) * inp z y x
-                   + d11 (cur z y x) (cur (z + dz) (y + dy) (x + dx)) * inp (z + dz) (y + dy) (x + dx)))
+      current * (d20 (cur z y x) (cur (z + dz) (y + dy) (x + dx)) * inp z y x
+                   + d11 (cur z y x) (cur (z + dz) (y + dy) (x + dx)) * inp (z + dz) (y + dy) (x + dx))
       * kfac κ z y x (z + dz) (y + dy) (x + dx)) * pf
 
 /-- `accumulate_Hessian_times_input`: `if (penalisation_factor == 0) return;` … `output[z][y][x] += …` -/
@@ -134,9 +140,9 @@ def hessTimes (d20 d11 : K → K → K) (pf : K) (w : Img K) (κ : Option (Img K
 
 /-! ### QuadraticPrior -/
 
-/-- `QuadraticPrior::derivative_20` (QuadraticPrior.cxx:691): `return 1.0;` -/
+/-- `QuadraticPrior::derivative_20` (QuadraticPrior.cxx:694): `return 1.0;` -/
 def qD20 (_xj _xk : K) : K := 1
-/-- `QuadraticPrior::derivative_11` (QuadraticPrior.cxx:698): `return -1.0;` -/
+/-- `QuadraticPrior::derivative_11` (QuadraticPrior.cxx:701): `return -1.0;` -/
 def qD11 (_xj _xk : K) : K := -1
 /-- the factor of the weight in `QuadraticPrior::compute_gradient` (QuadraticPrior.cxx:358-359) -/
 def qD10 (a b : K) : K := a - b
@@ -151,17 +157,17 @@ def qValue (pf : K) (w : Img K) (κ : Option (Img K)) (b wb : Box) (img : Img K)
   if pf == 0 then 0 else qValueCore pf w κ b wb img
 /-- `QuadraticPrior::compute_gradient` (QuadraticPrior.cxx:300-382) -/
 def qGrad : K → Img K → Option (Img K) → Box → Box → Img K → Int → Int → Int → K := grad qD10
-/-- `QuadraticPrior::compute_Hessian` (QuadraticPrior.cxx:384-454) -/
+/-- `QuadraticPrior::compute_Hessian` (QuadraticPrior.cxx:384-457) -/
 def qHessRow : K → Img K → Option (Img K) → Box → Box → Img K → Int → Int → Int → Int → Int → Int → K := hessRow qD20 qD11
-/-- `QuadraticPrior::accumulate_Hessian_times_input` (QuadraticPrior.cxx:599-687) -/
+/-- `QuadraticPrior::accumulate_Hessian_times_input` (QuadraticPrior.cxx:602-690) -/
 def qHessTimes : K → Img K → Option (Img K) → Box → Box → Img K → Img K → Img K → Int → Int → Int → K := hessTimes qD20 qD11
 
-/-- `QuadraticPrior::parabolic_surrogate_curvature` (QuadraticPrior.cxx:456-531): `current = weights * 1 * kappa…` -/
+/-- `QuadraticPrior::parabolic_surrogate_curvature` (QuadraticPrior.cxx:459-534): `current = weights * 1 * kappa…` -/
 def qSurrogate (pf : K) (w : Img K) (κ : Option (Img K)) (b wb : Box) (z y x : Int) : K :=
   if pf == 0 then 0
   else (nbSum b wb z y x fun dz dy dx => w dz dy dx * 1 * kfac κ z y x (z + dz) (y + dy) (x + dx)) * pf
 
-/-- `QuadraticPrior::add_multiplication_with_approximate_Hessian` (QuadraticPrior.cxx:533-597):
+/-- `QuadraticPrior::add_multiplication_with_approximate_Hessian` (QuadraticPrior.cxx:536-600):
     `current = weights * input[z+dz][y+dy][x+dx] * kappa…; output[z][y][x] += result * penalisation_factor` -/
 def qApproxHessTimes (pf : K) (w : Img K) (κ : Option (Img K)) (b wb : Box) (inp out : Img K) (z y x : Int) : K :=
   if pf == 0 then out z y x
@@ -202,14 +208,14 @@ def rdpD10 (γ ε x y : K) : K :=
     let denom_sqrt := x + y + γ * absK (x - y) + ε
     num / (denom_sqrt * denom_sqrt)
 
-/-- `RelativeDifferencePrior::derivative_20` (RelativeDifferencePrior.cxx:621-629);
+/-- `RelativeDifferencePrior::derivative_20` (RelativeDifferencePrior.cxx:624-632);
     the `else return INFINITY` branch (`x_j <= 0 && x_k <= 0 && epsilon <= 0`) is modelled as division by zero -/
 def rdpD20 (γ ε xj xk : K) : K :=
   if 0 < xj || 0 < xk || 0 < ε then
     two * sq (two * xk + ε) / (rdpDen γ ε xj xk * rdpDen γ ε xj xk * rdpDen γ ε xj xk)
   else 1 / 0
 
-/-- `RelativeDifferencePrior::derivative_11` (RelativeDifferencePrior.cxx:631-640) -/
+/-- `RelativeDifferencePrior::derivative_11` (RelativeDifferencePrior.cxx:634-643) -/
 def rdpD11 (γ ε xj xk : K) : K :=
   if 0 < xj || 0 < xk || 0 < ε then
     -two * (two * xj + ε) * (two * xk + ε) / (rdpDen γ ε xj xk * rdpDen γ ε xj xk * rdpDen γ ε xj xk)
@@ -224,9 +230,9 @@ def rValue (γ ε pf : K) (w : Img K) (κ : Option (Img K)) (b wb : Box) (img : 
   if pf == 0 then 0 else valueSum (rdpTerm γ ε) w κ b wb img * pf
 /-- `RelativeDifferencePrior::compute_gradient` (RelativeDifferencePrior.cxx:373-450) -/
 def rGrad (γ ε : K) : K → Img K → Option (Img K) → Box → Box → Img K → Int → Int → Int → K := grad (rdpD10 γ ε)
-/-- `RelativeDifferencePrior::compute_Hessian` (RelativeDifferencePrior.cxx:452-522) -/
+/-- `RelativeDifferencePrior::compute_Hessian` (RelativeDifferencePrior.cxx:452-525) -/
 def rHessRow (γ ε : K) : K → Img K → Option (Img K) → Box → Box → Img K → Int → Int → Int → Int → Int → Int → K := hessRow (rdpD20 γ ε) (rdpD11 γ ε)
-/-- `RelativeDifferencePrior::accumulate_Hessian_times_input` (RelativeDifferencePrior.cxx:532-619) -/
+/-- `RelativeDifferencePrior::accumulate_Hessian_times_input` (RelativeDifferencePrior.cxx:535-622) -/
 def rHessTimes (γ ε : K) : K → Img K → Option (Img K) → Box → Box → Img K → Img K → Img K → Int → Int → Int → K := hessTimes (rdpD20 γ ε) (rdpD11 γ ε)
 
 variable [Transc K]
@@ -357,30 +363,28 @@ def plsValueOf (pf : K) (F : PlsFields K) (κ : Option (Img K)) (b : Box) : K :=
 def plsValue (only2D : Bool) (α pf : K) (A : PlsAnat K) (κ : Option (Img K)) (b : Box) (img : Img K) : K :=
   if pf == 0 then 0 else plsValueOf pf (plsFields only2D α A b img) κ b
 
-/-- `(pet_im_grad[r] - anatomical_grad[r] * inner_product[r] / norm[r]) / penalty[r]`, the bracket that appears twice in
-    every assignment of `PLSPrior::compute_gradient` (PLSPrior.cxx:583-629) -/
-def plsFlux (g a ip nrm pen : Img K) (z y x : Int) : K :=
-  (g z y x - a z y x * ip z y x / nrm z y x) / pen z y x
+/-- the lambda `flux` of `PLSPrior::compute_gradient` (PLSPrior.cxx:567-578):
+    `current = (pet_im_grad[r] - anatomical_grad[r] * inner_product[r] / norm[r]) / penalty[r]; if (do_kappa) current *= kappa[r];`
+    It vanishes at the last voxel along its direction (both forward differences are 0 there). -/
+def plsFlux (κ : Option (Img K)) (g a ip nrm pen : Img K) (z y x : Int) : K :=
+  let current := (g z y x - a z y x * ip z y x / nrm z y x) / pen z y x
+  match κ with | none => current | some k => current * k z y x
 
-/-- the two loops of `PLSPrior::compute_gradient` (PLSPrior.cxx:557-667).  `gradientx[z][y][x+1]`, `gradienty[z][y+1][x]`,
-    `gradientz[z+1][y][x]` are assigned only for voxels `(z,y,x)` that pass
-    `!(x+1 > max_x || y+1 > max_y || (z+1 > max_z && !only_2D))`; all other entries keep the 0 of `get_empty_copy()`. -/
+/-- the two loops of `PLSPrior::compute_gradient` (PLSPrior.cxx:580-641): for every voxel and every direction
+    `gradient_d[r] = flux_d(r); if (r_d > min_d) gradient_d[r] -= flux_d(r - e_d);` (minus the backward difference of the flux: the
+    adjoint of the forward difference used in `compute_value`), then `-(gradientz + gradienty + gradientx) * penalisation_factor`
+    (`-(gradienty + gradientx)` for `only_2D`). -/
 def plsGradOf (only2D : Bool) (pf : K) (A : PlsAnat K) (F : PlsFields K) (κ : Option (Img K)) (b : Box) (z y x : Int) : K :=
-  let pass (z y x : Int) : Bool :=
-    !(decide (x + 1 > b.x1) || decide (y + 1 > b.y1) || (decide (z + 1 > b.z1) && !only2D))
-  let inImg (z y x : Int) : Bool :=
-    decide (b.z0 ≤ z) && decide (z ≤ b.z1) && decide (b.y0 ≤ y) && decide (y ≤ b.y1) && decide (b.x0 ≤ x) && decide (x ≤ b.x1)
-  let gradx : K := if inImg z y (x - 1) && pass z y (x - 1) then
-      plsFlux F.gx A.ax F.ip A.norm F.pen z y x - plsFlux F.gx A.ax F.ip A.norm F.pen z y (x - 1) else 0
-  let grady : K := if inImg z (y - 1) x && pass z (y - 1) x then
-      plsFlux F.gy A.ay F.ip A.norm F.pen z y x - plsFlux F.gy A.ay F.ip A.norm F.pen z (y - 1) x else 0
-  let gradz : K := if !only2D && inImg (z - 1) y x && pass (z - 1) y x then
-      plsFlux F.gz A.az F.ip A.norm F.pen z y x - plsFlux F.gz A.az F.ip A.norm F.pen (z - 1) y x else 0
+  let fx := plsFlux κ F.gx A.ax F.ip A.norm F.pen
+  let fy := plsFlux κ F.gy A.ay F.ip A.norm F.pen
+  let fz := plsFlux κ F.gz A.az F.ip A.norm F.pen
+  let gradx : K := if x > b.x0 then fx z y x - fx z y (x - 1) else fx z y x
+  let grady : K := if y > b.y0 then fy z y x - fy z (y - 1) x else fy z y x
+  let gradz : K := if z > b.z0 then fz z y x - fz (z - 1) y x else fz z y x
   let g : K := if only2D then -(grady + gradx) else -(gradz + grady + gradx)
-  let g := match κ with | none => g | some k => g * k z y x
   g * pf
 
-/-- `PLSPrior::compute_gradient` (PLSPrior.cxx:517-680) -/
+/-- `PLSPrior::compute_gradient` (PLSPrior.cxx:517-654) -/
 def plsGrad (only2D : Bool) (α pf : K) (A : PlsAnat K) (κ : Option (Img K)) (b : Box) (img : Img K) (z y x : Int) : K :=
   if pf == 0 then 0 else plsGradOf only2D pf A (plsFields only2D α A b img) κ b z y x
 
